@@ -104,6 +104,20 @@ func mutateLines(text string, emit func(string, string)) {
 				emit(rebuild(i, []string{join(w)}), fmt.Sprintf("L%d:swap%d", i+1, k))
 			}
 		}
+		// White space between and behind the words: doubled blank at
+		// every gap, TAB at the first and the last gap, trailing blank,
+		// trailing carriage return.
+		gap := func(k int, sep string) string {
+			return indent + strings.Join(words[:k+1], " ") + sep + strings.Join(words[k+1:], " ")
+		}
+		for k := 0; k+1 < len(words); k++ {
+			emit(rebuild(i, []string{gap(k, "  ")}), fmt.Sprintf("L%d:blank2@%d", i+1, k))
+			if k == 0 || k+2 == len(words) {
+				emit(rebuild(i, []string{gap(k, "\t")}), fmt.Sprintf("L%d:tab@%d", i+1, k))
+			}
+		}
+		emit(rebuild(i, []string{line + " "}), fmt.Sprintf("L%d:trailing-blank", i+1))
+		emit(rebuild(i, []string{line + "\r"}), fmt.Sprintf("L%d:trailing-cr", i+1))
 		// Indentation changes.
 		emit(rebuild(i, []string{" " + line}), fmt.Sprintf("L%d:indent+", i+1))
 		if strings.HasPrefix(line, " ") {
@@ -587,7 +601,7 @@ func checkC20(tier, replay string) int {
 	rep := ev.New(env, "exploration")
 	rep.Rule = "Deterministic enumeration over every configuration text of go/testdata/*.t: " +
 		"per line all word-prefix truncations, single-token deletions, duplications, adjacent swaps, " +
-		"indentation +-1, line drop/dup (family L), each mutated text also supplied at the three other " +
+		"indentation +-1, doubled blank / TAB between words, trailing blank / CR, line drop/dup (family L), each mutated text also supplied at the three other " +
 		"argument positions device/netspoc/ipv6/raw (X), JSON/XML structural mutations (S, SX), info file " +
 		"mutations (I), garbage files (G), status file truncations/garbage for missing-approve (ST), " +
 		"info files with every combination of 0-3 names and 0-3 addresses and JSON structure mutations in live compare sessions of all five device types through drc and do-approve, with a reachable and an unreachable device (LI), valid generated pairs of the convergence generators for all five device types (V) and the same line / structure mutations applied to some of them (VL, VS). Cases are deduplicated by content hash of " +
